@@ -82,5 +82,4 @@ def run(res, tier):
 
 
 def replay(path):
-    import json
-    d = json.load(open(path)); print(json.dumps(d, indent=1)[:3000]); return 1
+    return _dp.replay_direct(path)
